@@ -16,8 +16,11 @@ import z3
 
 from gen import programs as G
 from symx.core import Ctx, Stats, explore, Inconclusive, Unsupported, PathLimit
+from symx import rex
 from symx.text import SymStr, SymChar
 from . import lib, runner, callsym, seqsem
+
+_REX = rex.module()
 
 ITEMS = ["o1", "o2", "o3"]
 
@@ -280,20 +283,47 @@ def run_line(task):
         cons, words = [], []
         for wi, ln in enumerate(lens):
             vs = [z3.Int(f"w{wi}c{k}") for k in range(ln)]
-            cons += [name_char(v) for v in vs]
+            if task.get("alphabet") == "printable":
+                # whatever the library's tokenizer accepts inside a name: any printable ASCII character except blanks,
+                # parentheses and the comment sign (objects such as room1.1 or a@b are legal for it)
+                cons += [z3.And(v >= 33, v <= 126, v != 40, v != 41, v != 59) for v in vs]
+            else:
+                cons += [name_char(v) for v in vs]
             words.append(SymStr([SymChar(v) for v in vs]))
         if not ctx.assume(z3.And(cons)):
             return None
+        rex.install(nte, _REX)
         line = SymStr.of("(") + words[0]
         for w in words[1:]:
             line = line + ws + w
         line = line + ")" + task.get("tail", "\n")
         return words, nte.parse_action_call(line)
 
+    def concrete_line(line):
+        """the real parse_action_call (real re) on a concrete line against the reference split"""
+        rex.uninstall(nte)
+        want = line.lower().replace("(", " ").replace(")", " ").split()
+        try:
+            ac = nte.parse_action_call(line)
+            got = [ac.name] + list(ac.parameters)
+        except Exception as e:  # noqa
+            return {"line": line, "observed": f"{type(e).__name__}: {e}", "expected": want, "disagree": True}
+        return {"line": line, "observed": got, "expected": want, "disagree": got != want}
+
+    def words_vars():
+        return [[z3.Int(f"w{wi}c{k}") for k in range(ln)] for wi, ln in enumerate(lens)]
+
     def on_path(ctx: Ctx, pr):
         if pr.kind == "exc":
-            res["outcome"] = "violation"
-            res["cex"] = {"what": f"parse_action_call raised {type(pr.value).__name__}: {pr.value}"}
+            if ctx.check() == "sat" and res["outcome"] != "violation":
+                m = ctx.solver.model()
+                line = "(" + ws.join("".join(chr(m.eval(v, model_completion=True).as_long()) for v in vs) for vs in words_vars()) + ")" + task.get("tail", "\n")
+                rp = concrete_line(line)
+                if rp["disagree"]:
+                    res["outcome"] = "violation"
+                    res["cex"] = {"what": f"parse_action_call raised {type(pr.value).__name__}: {pr.value}", "replay": rp}
+                else:
+                    res["unconfirmed"] = res.get("unconfirmed", 0) + 1
             return
         if pr.value is None:
             return
@@ -308,9 +338,12 @@ def run_line(task):
                 parts.append(gs.eqz(w.lower()))
         m = ctx.valid(z3.And(parts))
         if m is not None and res["outcome"] != "violation":
-            res["outcome"] = "violation"
-            res["cex"] = {"what": "name/parameters are not the lower-cased pieces in order",
-                          "line": "(" + ws.join(w.concrete(m) for w in words) + ")"}
+            rp = concrete_line("(" + ws.join(w.concrete(m) for w in words) + ")" + task.get("tail", "\n"))
+            if rp["disagree"]:
+                res["outcome"] = "violation"
+                res["cex"] = {"what": "name/parameters are not the lower-cased pieces in order", "replay": rp}
+            else:
+                res["unconfirmed"] = res.get("unconfirmed", 0) + 1
 
     try:
         explore(fn, on_path, stats=stats, max_paths=50000, timeout_ms=5000)
@@ -334,6 +367,8 @@ def tasks_for(tier, seed):
     for lens in ([1], [2], [1, 1], [2, 1], [1, 1, 1], [2, 2, 1]):
         for ws in (" ", "\t", "  "):
             tasks.append({"kind": "line", "lens": lens, "ws": ws})
+    for lens in ([1], [2], [1, 2], [2, 1, 1]):
+        tasks.append({"kind": "line", "lens": lens, "ws": " ", "alphabet": "printable"})
     return tasks
 
 
